@@ -197,12 +197,13 @@ func (p c09) check(x *Exec, op Op, out Outcome, who string) {
 		return
 	}
 	if op.Obj != st.target {
-		// a call on a neighbour legitimately changes that neighbour (and what
-		// it is given): re-baseline those, judge only the fenced instance itself
+		// a call on a neighbour may legitimately change anything that is not
+		// itself read-only - the neighbour, what it is given, and whatever it
+		// reaches (a parent's Defrag or Reveal descends into writable stacks
+		// that also hang below the fenced object): re-baseline everything
+		// nested below the fenced object, judge only the fenced instance itself
 		for k := range st.reach {
-			if k == op.Obj || touches(op, k) {
-				st.reach[k] = normStamp(x.w.dump(k))
-			}
+			st.reach[k] = normStamp(x.w.dump(k))
 		}
 	}
 	if op.Obj == st.target && op.M != "Init" {
